@@ -155,7 +155,17 @@ func singlelineDiff(expected, received string) (string, int, int) {
 		dmp.DiffMain(expected, received, false),
 	)
 	if len(diffs) == 1 && diffs[0].Type == diffEqual {
-		return "", -1, -1
+		if expected == received {
+			return "", -1, -1
+		}
+
+		// the texts differ only in bytes the rune based diff can't tell apart
+		// (e.g. invalid utf8), print both lines instead of reporting no diff.
+		var s strings.Builder
+		colors.FprintDelete(&s, strings.TrimSuffix(expected, "\n")+"\n")
+		colors.FprintInsert(&s, strings.TrimSuffix(received, "\n")+"\n")
+
+		return s.String(), 1, 1
 	}
 
 	var inserted, deleted int
